@@ -69,6 +69,20 @@ def gen_points(rng, L, n, strata):
                 for e in range(3):
                     if e != d and rng.random() < 0.7:
                         p[e] = rng.choice([-1, 1]) * (h - h * 10.0 ** rng.uniform(-6.0, -0.3))
+        elif s == "edge":            # the supremum of the ratio: component along one direction -> 0, the other two at +-L/2
+            d = rng.randrange(3)
+            p = [0.0, 0.0, 0.0]
+            for e in range(3):
+                if e == d:
+                    p[e] = rng.choice([-1, 1]) * h * 10.0 ** rng.uniform(-17.0, -1.0)
+                else:
+                    q = rng.random()
+                    p[e] = rng.choice([-1, 1]) * (h if q < 0.3 else math.nextafter(h, 0) if q < 0.4
+                                                  else h - h * 10.0 ** rng.uniform(-12.0, -1.0))
+        elif s == "tiny":            # zero / denormal / tiny component along one direction (rounding residues)
+            p = [rng.uniform(-h, h) for _ in range(3)]
+            p[rng.randrange(3)] = rng.choice([0.0, -0.0, 5e-324, -5e-324, 1e-300, -1e-200, 1e-30, -1e-60,
+                                              10.0 ** rng.uniform(-300, -17) * rng.choice([-1, 1])])
         elif s == "peak":            # neighbourhood of the best point found so far by the caller
             c = rng.choice(strata_peaks) if strata_peaks else [0.0, 0.0, 0.0]
             w = h * 10.0 ** rng.uniform(-5.0, -1.0)
@@ -101,6 +115,9 @@ def run_dom(cfg):
     vel = [[1.0, 0.0, 0.0], [0.0, 1.0, 0.0], [0.0, 0.0, 1.0]]
     charges = [(1.0, 1.0), (1.0, -1.0), (-1.0, 1.0), (-1.0, -1.0)]
     top = []       # (score, record)
+    floor = cfg.get("floor", 0.0) / (L * L)
+    residues = 0
+    max_residue = 0.0
     nviol = 0
     neval = 0
     npos = 0
@@ -116,6 +133,11 @@ def run_dom(cfg):
                         nviol += 1
                         top.append((math.inf, [[f2b(x) for x in p], d, [c1, c2], f2b(t), f2b(b)]))
                     continue
+                if t <= floor:
+                    if not b > 0.0:          # rounding residue of the lattice sum where the bound vanishes
+                        residues += 1
+                        max_residue = max(max_residue, t)
+                    continue
                 npos += 1
                 score = t / b if b > 0.0 else math.inf
                 hist[min(21, int(score / 0.05)) if score != math.inf else 21] += 1
@@ -126,7 +148,8 @@ def run_dom(cfg):
                     top.sort(key=lambda x: -x[0])
                     del top[K:]
     setting.reset()
-    return {"neval": neval, "npos": npos, "nviol": nviol, "hist": hist,
+    return {"neval": neval, "npos": npos, "nviol": nviol, "hist": hist, "residues": residues,
+            "max_residue": f2b(max_residue),
             "top": [[("inf" if s == math.inf else f2b(s)), r] for s, r in top],
             "kb": f2b(cfg["kb"] if cfg.get("kb") is not None else default_prefactor())}
 
@@ -136,7 +159,8 @@ def run_dom(cfg):
 def unit_rec(u):
     return {"id": list(u.identifier), "pos": [f2b(x) for x in u.position],
             "vel": None if u.velocity is None else [f2b(x) for x in u.velocity],
-            "ts": None if u.time_stamp is None else [f2b(u.time_stamp.quotient), f2b(u.time_stamp.remainder)]}
+            "ts": None if u.time_stamp is None else [f2b(u.time_stamp.quotient), f2b(u.time_stamp.remainder)],
+            "charge": None if u.charge is None else f2b(u.charge["charge"])}
 
 
 def flatten(cnodes):
@@ -148,14 +172,12 @@ def flatten(cnodes):
 
 
 class Recorder:
-    """patched random + intercepted bounding_potential_warning + wrapped potentials for one handler call pair."""
+    """patched random + intercepted bounding_potential_warning for one handler run."""
 
     def __init__(self):
         self.uniform_calls = []
         self.expo_calls = []
         self.warn_calls = []
-        self.pot_calls = []
-        self.bnd_calls = []
         self.umode = None
         self.expo_values = []
 
@@ -182,12 +204,19 @@ def wrap_derivative(obj, log):
 
     def w(velocity, separation, *charges):
         r = orig(velocity, separation, *charges)
+        flat = []
+        for c in charges:
+            flat += list(c) if isinstance(c, tuple) else [c]
         log.append({"vel": [f2b(x) for x in velocity],
-                    "sep": [f2b(x) if not isinstance(x, int) else x for x in separation] if not hasattr(
-                        separation, "cell_min") else "cell",
-                    "charges": [f2b(c) for c in charges], "res": f2b(r)})
+                    "sep": "cell" if hasattr(separation, "cell_min") else [f2b(x) for x in separation],
+                    "charges": [f2b(c) for c in flat], "res": f2b(r)})
         return r
     obj.derivative = w
+
+
+def unwrap_derivative(obj):
+    if "derivative" in obj.__dict__:
+        del obj.__dict__["derivative"]
 
 
 PATCH_MODULES = [
@@ -206,7 +235,6 @@ class FakeRandom:
     """stands in for the module 'random' inside the handler modules"""
 
     def __init__(self, rec):
-        self._rec = rec
         self.uniform = rec.uniform
         self.expovariate = rec.expovariate
 
@@ -219,10 +247,10 @@ def patch(rec):
     saved = []
     for name in PATCH_MODULES:
         m = importlib.import_module(name)
-        if hasattr(m, "random"):
+        if "random" in m.__dict__:
             saved.append((m, "random", m.random))
             m.random = FakeRandom(rec)
-        if hasattr(m, "bounding_potential_warning"):
+        if "bounding_potential_warning" in m.__dict__:
             saved.append((m, "bounding_potential_warning", m.bounding_potential_warning))
             m.bounding_potential_warning = rec.warning
     return saved
@@ -233,18 +261,38 @@ def unpatch(saved):
         setattr(m, k, v)
 
 
+class StubEstimator:
+    """cell bounds from a seeded stream (the acceptance logic is driven, not the estimator): always a positive
+    upper and a negative lower bound, so that every relative cell has a positive bounding rate."""
+
+    def __init__(self, potential, seed):
+        self.potential = potential
+        self._rng = random.Random(seed)
+
+    def derivative_bound(self, lower_corner, upper_corner, direction, calculate_lower_bound=False):
+        ub = self._rng.choice([0.3, 1.0, 3.0, 10.0]) * (0.5 + self._rng.random())
+        lb = -self._rng.choice([0.3, 1.0, 3.0, 10.0]) * (0.5 + self._rng.random())
+        return [ub, lb] if calculate_lower_bound else [ub]
+
+    def charge_correction_factor(self, active_charges, target_charges=1.0):
+        if isinstance(target_charges, tuple):
+            target_charges = target_charges[0]
+        return active_charges * target_charges
+
+
 def build_state(case):
     """in-state from the case description: list of root cnodes; leaves carry charge {'charge': c}."""
     from jellyfysh.base.node import Node
     from jellyfysh.base.unit import Unit
     from jellyfysh.base.time import Time
+
+    def mk(u):
+        return Unit(identifier=tuple(u["id"]), position=[b2f(x) for x in u["pos"]],
+                    charge=None if u.get("charge") is None else {"charge": b2f(u["charge"])},
+                    velocity=None if u.get("vel") is None else [b2f(x) for x in u["vel"]],
+                    time_stamp=None if u.get("ts") is None else Time(b2f(u["ts"][0]), b2f(u["ts"][1])))
     roots = []
     for r in case["state"]:
-        def mk(u):
-            return Unit(identifier=tuple(u["id"]), position=[b2f(x) for x in u["pos"]],
-                        charge=None if u.get("charge") is None else {"charge": b2f(u["charge"])},
-                        velocity=None if u.get("vel") is None else [b2f(x) for x in u["vel"]],
-                        time_stamp=None if u.get("ts") is None else Time(b2f(u["ts"][0]), b2f(u["ts"][1])))
         root = Node(mk(r), weight=1)
         for ch in r.get("children", []):
             root.add_child(Node(mk(ch), weight=b2f(ch["w"])))
@@ -252,62 +300,130 @@ def build_state(case):
     return roots
 
 
-def run_handler_case(case, pots):
-    """One case = one in-state, one handler family, a list of uniform modes; for every mode a fresh handler is
-    driven through send_event_time + send_out_state on a fresh copy of the in-state."""
-    from jellyfysh.event_handler.two_leaf_unit_bounding_potential_event_handler import \
-        TwoLeafUnitBoundingPotentialEventHandler
-    from jellyfysh.event_handler.two_composite_object_summed_bounding_potential_event_handler import \
-        TwoCompositeObjectSummedBoundingPotentialEventHandler
+def make_handler(cfg, case, pots, cells):
+    import contextlib
+    import io
     from jellyfysh.lifting.ratio_lifting import RatioLifting
     from jellyfysh.lifting.inside_first_lifting import InsideFirstLifting
     pot, bnd = pots
-    out = []
-    for mode in case["umodes"]:
-        rec = Recorder()
-        rec.umode = mode
-        rec.expo_values = case["expo"]
-        res = {"mode": mode}
-        saved = patch(rec)
-        pot_calls, bnd_calls = [], []
-        pd, bd = pot.derivative, bnd.derivative
-        try:
-            wrap_derivative(pot, pot_calls)
-            wrap_derivative(bnd, bnd_calls)
-            fam = case["family"]
-            charge = "charge" if case.get("use_charge", True) else None
-            if fam == "leaf":
-                h = TwoLeafUnitBoundingPotentialEventHandler(potential=pot, bounding_potential=bnd, charge=charge)
-            elif fam == "summed":
-                lifting = RatioLifting() if case.get("lifting") == "ratio" else InsideFirstLifting()
-                h = TwoCompositeObjectSummedBoundingPotentialEventHandler(
-                    potential=pot, bounding_potential=bnd, lifting=lifting, charge=charge)
-            else:
-                raise ValueError(fam)
-            state = build_state(case)
-            res["in"] = flatten(state)
-            t = h.send_event_time(state)
-            res["time"] = [f2b(t.quotient), f2b(t.remainder)]
-            res["sliced"] = flatten(state)
-            nb, npot = len(bnd_calls), len(pot_calls)
-            o = h.send_out_state()
+    fam = cfg["family"]
+    charge = "charge" if case.get("use_charge", True) else None
+    lifting = RatioLifting() if case.get("lifting") == "ratio" else InsideFirstLifting()
+    bounding = bnd
+    if fam == "leaf":
+        from jellyfysh.event_handler.two_leaf_unit_bounding_potential_event_handler import \
+            TwoLeafUnitBoundingPotentialEventHandler
+        h = TwoLeafUnitBoundingPotentialEventHandler(potential=pot, bounding_potential=bnd, charge=charge)
+    elif fam == "summed":
+        from jellyfysh.event_handler.two_composite_object_summed_bounding_potential_event_handler import \
+            TwoCompositeObjectSummedBoundingPotentialEventHandler
+        h = TwoCompositeObjectSummedBoundingPotentialEventHandler(
+            potential=pot, bounding_potential=bnd, lifting=lifting, charge=charge)
+    elif fam in ("cell_leaf", "cell_comp"):
+        from jellyfysh.potential.cell_bounding_potential import CellBoundingPotential
+        bounding = CellBoundingPotential(estimator=StubEstimator(pot, cfg["est_seed"]))
+        if fam == "cell_leaf":
+            from jellyfysh.event_handler.two_leaf_unit_cell_bounding_potential_event_handler import \
+                TwoLeafUnitCellBoundingPotentialEventHandler
+            h = TwoLeafUnitCellBoundingPotentialEventHandler(potential=pot, bounding_potential=bounding, charge=charge)
+        else:
+            from jellyfysh.event_handler.two_composite_object_cell_bounding_potential_event_handler import \
+                TwoCompositeObjectCellBoundingPotentialEventHandler
+            h = TwoCompositeObjectCellBoundingPotentialEventHandler(
+                potential=pot, bounding_potential=bounding, lifting=lifting, charge=charge)
+        with contextlib.redirect_stdout(io.StringIO()):
+            h.initialize(cells)
+    elif fam in ("veto_leaf", "veto_comp"):
+        est = StubEstimator(pot, cfg["est_seed"])
+        bounding = None
+        if fam == "veto_leaf":
+            from jellyfysh.event_handler.leaf_unit_cell_veto_event_handler import LeafUnitCellVetoEventHandler
+            h = LeafUnitCellVetoEventHandler(estimator=est, potential=pot, charge=charge)
+        else:
+            from jellyfysh.event_handler.composite_object_cell_veto_event_handler import \
+                CompositeObjectCellVetoEventHandler
+            h = CompositeObjectCellVetoEventHandler(estimator=est, lifting=lifting, potential=pot, charge=charge)
+        with contextlib.redirect_stdout(io.StringIO()):
+            h.initialize(cells, 1)
+    else:
+        raise ValueError(fam)
+    return h, bounding
+
+
+def one_run(cfg, case, pots, cells, mode, seed):
+    pot, bnd = pots
+    fam = cfg["family"]
+    rec = Recorder()
+    rec.umode = mode
+    rec.expo_values = case["expo"]
+    res = {"mode": mode}
+    saved = patch(rec)
+    pot_calls, bnd_calls = [], []
+    bounding = None
+    try:
+        random.seed(seed)
+        h, bounding = make_handler(cfg, case, pots, cells)
+        wrap_derivative(pot, pot_calls)
+        if bounding is not None:
+            wrap_derivative(bounding, bnd_calls)
+        state = build_state(case)
+        target = None
+        if fam.startswith("veto"):
+            active_roots = [c for c in state if c.value.velocity is not None]
+            target = [c for c in state if c.value.velocity is None][0]
+            state = active_roots
+        res["in"] = flatten(state) + (flatten([target]) if target is not None else [])
+        t = h.send_event_time(state)
+        if fam.startswith("veto"):
+            t = t[0]
+            res["veto_rate"] = f2b(h._bounding_event_rate)
+        res["time"] = [f2b(t.quotient), f2b(t.remainder)]
+        res["sliced"] = flatten(state) + (flatten([target]) if target is not None else [])
+        nb, npot = len(bnd_calls), len(pot_calls)
+        o = h.send_out_state(target) if fam.startswith("veto") else h.send_out_state()
+        if o is None:
+            res["skipped"] = True
+        else:
             res["out"] = flatten(o)
-            res["pot_calls"] = pot_calls[npot:]
-            res["bnd_calls"] = bnd_calls[nb:]
-        except Exception as e:  # noqa
-            import traceback
-            res["exc"] = exc_enum(e) + ": " + traceback.format_exc()[-500:]
-        finally:
-            pot.derivative, bnd.derivative = pd, bd
-            if "derivative" in pot.__dict__:
-                del pot.__dict__["derivative"]
-            if "derivative" in bnd.__dict__:
-                del bnd.__dict__["derivative"]
-            unpatch(saved)
-        res["uniform"] = rec.uniform_calls
-        res["expo"] = rec.expo_calls
-        res["warn"] = rec.warn_calls
-        out.append(res)
+        res["pot_calls"] = pot_calls[npot:]
+        res["bnd_calls"] = bnd_calls[nb:]
+        if fam.startswith("cell") and bnd_calls[nb:]:
+            res["stub_rate"] = bnd_calls[nb]["res"]
+    except Exception as e:  # noqa
+        import traceback
+        res["exc"] = exc_enum(e) + ": " + traceback.format_exc()[-700:]
+    finally:
+        unwrap_derivative(pot)
+        if bounding is not None:
+            unwrap_derivative(bounding)
+        unpatch(saved)
+    res["uniform"] = rec.uniform_calls
+    res["expo"] = rec.expo_calls
+    res["warn"] = rec.warn_calls
+    return res
+
+
+def shift(x, k):
+    for _ in range(abs(k)):
+        x = math.nextafter(x, math.inf if k > 0 else -math.inf)
+    return x
+
+
+def run_handler_case(cfg, case, pots, cells, seed):
+    out = []
+    probe = None
+    for mode in case["umodes"]:
+        if mode[0] == "tie":
+            if probe is None:
+                probe = one_run(cfg, case, pots, cells, ["u", f2b(0.5)], seed)
+            if "exc" in probe or probe.get("skipped") or not probe.get("pot_calls"):
+                continue
+            if probe["warn"]:
+                r = b2f(probe["warn"][-1][2])
+            else:
+                r = b2f(probe["pot_calls"][-1]["res"])
+            mode = ["x", f2b(max(0.0, shift(r, mode[1])))]     # random.uniform(0, b) is never negative
+        out.append(one_run(cfg, case, pots, cells, mode, seed))
     return out
 
 
@@ -319,7 +435,11 @@ def run_handlers(cfg):
     setting.set_number_of_nodes_per_root_node(cfg.get("npr", 1))
     setting.set_number_of_node_levels(1 if cfg.get("npr", 1) == 1 else 2)
     pots = make_potentials(cfg)
-    res = [run_handler_case(c, pots) for c in cfg["cases"]]
+    cells = None
+    if cfg["family"].startswith(("cell", "veto")):
+        from jellyfysh.activator.internal_state.cell_occupancy.cells.cuboid_periodic_cells import CuboidPeriodicCells
+        cells = CuboidPeriodicCells(cells_per_side=[cfg["cells_per_side"]] * 3)
+    res = [run_handler_case(cfg, c, pots, cells, cfg["est_seed"] + i) for i, c in enumerate(cfg["cases"])]
     setting.reset()
     return res
 
